@@ -3,7 +3,7 @@
 //! stream (C18), reaction codes
 use super::*;
 use crate::driver::streams::biremote::StreamBiRemoteH3;
-use crate::driver::streams::models::{Ev, Script};
+use crate::driver::streams::models::{CEv, ControlScript};
 use crate::driver::streams::qpack::{RemoteQPackDecStream, RemoteQPackEncStream};
 use crate::driver::streams::settings::RemoteSettingsStream;
 use crate::driver::streams::uniremote::{ModelRecv, StreamUniRemoteH3};
@@ -18,7 +18,7 @@ use wtransport_proto::headers::Headers;
 
 fn uni(kind: u8) -> StreamUniRemoteH3 {
     StreamUniRemoteH3 {
-        script: Script { events: [Ev::NotConnected; 3], n: 0, reads: 0 },
+        script: ControlScript { events: [CEv::NotConnected; 3], n: 0, reads: 0 },
         kind,
         recv: ModelRecv { oks: 0, end: 1, reset_code: VarInt::from_u32(0), reads: 0 },
     }
@@ -129,24 +129,9 @@ fn bi() -> (StreamBiRemoteH3, Rc<Cell<Option<u64>>>) {
     (StreamBiRemoteH3 { stop_log: stop.clone(), reset_log: Rc::new(Cell::new(None)) }, stop)
 }
 
-// @h props=C12,C18 tier=quick t=2400 mem=20 sub=handle-bi-non-headers
-// @fn wtransport/src/driver/mod.rs Worker::handle_bi_h3_stream (sliced)
-// @bound first frame on a peer-opened request stream = DATA, SETTINGS or GREASE (payload of 0..=2 symbolic bytes)
-// @oracle RFC 9114 §4.1/§7.2.4: DATA before HEADERS and SETTINGS on a request stream => connection error H3_FRAME_UNEXPECTED; GREASE ignored; nothing queued, stream not stopped
-// @assume model StreamBiRemoteH3 / session queue
-#[kani::proof]
-#[kani::unwind(6)]
-fn d_handle_bi_non_headers() {
-    let k: u8 = kani::any();
-    kani::assume(k < 3);
+fn handle_bi_non_headers(k: u8) {
     let p: [u8; 2] = kani::any();
-    let l: usize = kani::any();
-    kani::assume(l <= 2);
-    let payload = match l {
-        0 => Vec::new(),
-        1 => p[..1].to_vec(),
-        _ => p[..2].to_vec(),
-    };
+    let payload = p[..2].to_vec();
     let f: Frame<'static> = match k {
         0 => Frame::new_data(Cow::Owned(payload)),
         1 => Frame::new_settings(Cow::Owned(payload)),
@@ -157,8 +142,8 @@ fn d_handle_bi_non_headers() {
     let r = w.handle_bi_h3_stream(s, f);
     match (&r, k) {
         (Err(DriverError::Proto(e)), 0) | (Err(DriverError::Proto(e)), 1) => {
-            assert!(e.to_code().into_inner() == 0x105);
-            kani::cover!(k == 1, "settings on request stream");
+            assert!(e.to_code().into_inner() == 0x105, "DATA / SETTINGS first on a request stream must be H3_FRAME_UNEXPECTED");
+            kani::cover!(true, "refused");
         }
         (Ok(()), 2) => {
             kani::cover!(true, "grease ignored");
@@ -170,8 +155,42 @@ fn d_handle_bi_non_headers() {
     core::mem::forget(w);
 }
 
-/// builds the HEADERS frame of a request through the real (mirror) encoder; one call site per literal
-fn request_frame(shape: u8) -> Frame<'static> {
+macro_rules! handle_bi_nh {
+    ($name:ident, $k:literal) => {
+        #[kani::proof]
+        #[kani::unwind(6)]
+        fn $name() {
+            handle_bi_non_headers($k)
+        }
+    };
+}
+
+// @h props=C12,C18 tier=quick t=2400 mem=20 sub=handle-bi-non-headers covers=any
+// @fn wtransport/src/driver/mod.rs Worker::handle_bi_h3_stream (sliced)
+// @bound first frame on a peer-opened request stream = DATA with 2 symbolic payload bytes (frame kind concrete per instance: a symbolic kind makes CBMC explore the whole QPACK decoder)
+// @oracle RFC 9114 §4.1: DATA before HEADERS => connection error H3_FRAME_UNEXPECTED; nothing queued, stream not stopped
+// @assume model StreamBiRemoteH3 / session queue
+handle_bi_nh!(d_handle_bi_first_data, 0);
+
+// @h props=C12,C18 tier=quick t=2400 mem=20 sub=handle-bi-non-headers covers=any
+// @fn wtransport/src/driver/mod.rs Worker::handle_bi_h3_stream (sliced)
+// @bound first frame = SETTINGS with 2 symbolic payload bytes
+// @oracle RFC 9114 §7.2.4: SETTINGS on a request stream => connection error H3_FRAME_UNEXPECTED
+// @assume model StreamBiRemoteH3 / session queue
+handle_bi_nh!(d_handle_bi_first_settings, 1);
+
+// @h props=C12,C13 tier=quick t=2400 mem=20 sub=handle-bi-non-headers covers=any
+// @fn wtransport/src/driver/mod.rs Worker::handle_bi_h3_stream (sliced)
+// @bound first frame = GREASE with 2 symbolic payload bytes
+// @oracle ignored: Ok, nothing queued, stream not stopped
+// @assume model StreamBiRemoteH3 / session queue
+handle_bi_nh!(d_handle_bi_first_grease, 2);
+
+/// MODEL of `Headers::with_frame` for the request handler harnesses (bound by #[kani::stub]): the QPACK field-section
+/// decoder is cut out here (whole-function `Decoder::decode` does not fit the solver; its kernels are decided under
+/// C11/C14/C16). The first payload byte selects the decoded map; one insert call site per literal.
+pub fn model_headers_with_frame(frame: &Frame) -> Result<Headers, wtransport_proto::error::ErrorCode> {
+    let shape = frame.payload()[0];
     let mut h: Headers = core::iter::empty::<(&str, &str)>().collect();
     match shape {
         // 0: well-formed extended CONNECT
@@ -198,23 +217,35 @@ fn request_frame(shape: u8) -> Frame<'static> {
             h.insert(":path", "/");
         }
         // 3: extended CONNECT without :path
-        _ => {
+        3 => {
             h.insert(":method", "CONNECT");
             h.insert(":scheme", "https");
             h.insert(":protocol", "webtransport");
             h.insert(":authority", "a");
         }
+        // 4: plain-http scheme
+        4 => {
+            h.insert(":method", "CONNECT");
+            h.insert(":scheme", "http");
+            h.insert(":protocol", "webtransport");
+            h.insert(":authority", "a");
+            h.insert(":path", "/");
+        }
+        // anything else: the decoder failed
+        _ => return Err(wtransport_proto::error::ErrorCode::Decompression),
     }
-    let f = h.generate_frame();
-    core::mem::forget(h);
-    f
+    Ok(h)
+}
+
+fn request_frame(shape: u8) -> Frame<'static> {
+    Frame::new_headers(Cow::Owned([shape].to_vec()))
 }
 
 macro_rules! handle_bi_request {
     ($name:ident, $shape:literal) => {
         #[kani::proof]
-        #[kani::unwind(101)]
-        #[kani::stub(core::str::validations::run_utf8_validation, crate::vh::utf8_validation_stub)]
+        #[kani::unwind(14)]
+        #[kani::stub(Headers::with_frame, model_headers_with_frame)]
         fn $name() {
             let outcome: u8 = kani::any();
             kani::assume(outcome < 3);
@@ -222,7 +253,14 @@ macro_rules! handle_bi_request {
             let (s, stop) = bi();
             let r = w.handle_bi_h3_stream(s, request_frame($shape));
             let shape: u8 = $shape;
-            if shape == 0 {
+            if shape == 5 {
+                match &r {
+                    Err(DriverError::Proto(e)) => assert!(e.to_code().into_inner() == 0x200, "undecodable field section must be QPACK_DECOMPRESSION_FAILED"),
+                    _ => assert!(false, "undecodable field section not reported as a connection error"),
+                }
+                assert!(stop.get().is_none() && w.ready_sessions.accepted.get() == 0);
+                kani::cover!(true, "decompression failed");
+            } else if shape == 0 {
                 match (outcome, &r) {
                     (0, Ok(())) => {
                         assert!(w.ready_sessions.accepted.get() == 1 && stop.get().is_none(), "admitted request not handed to the application");
@@ -251,58 +289,44 @@ macro_rules! handle_bi_request {
     };
 }
 
-// @h props=C12,C18 tier=quick t=3000 mem=20 sub=handle-bi-request
-// @fn wtransport/src/driver/mod.rs Worker::handle_bi_h3_stream (sliced); wtransport-proto/src/headers.rs Headers::{with_frame,generate_frame}; wtransport-proto/src/qpack.rs Decoder::decode Encoder::encode; wtransport-proto/src/session.rs <SessionRequest as TryFrom<Headers>>::try_from (mirror)
-// @bound a well-formed extended CONNECT request (concrete field section produced by the real encoder); hand-off queue outcome: accepted / full / closed
+// @h props=C12,C18 tier=quick t=3000 mem=20 sub=handle-bi-request covers=any
+// @fn wtransport/src/driver/mod.rs Worker::handle_bi_h3_stream (sliced); wtransport-proto/src/session.rs <SessionRequest as TryFrom<Headers>>::try_from (mirror); wtransport-proto/src/headers.rs Headers::{insert,get}
+// @bound a well-formed extended CONNECT request (header map as decoded; the decoder itself is modelled); hand-off queue outcome: accepted / full / closed
 // @oracle admitted => handed to the application exactly once; queue full => that stream stopped with H3_REQUEST_REJECTED, connection kept; queue closed => NotConnected
-// @assume models: request stream, session queue, model map, model Huffman coder; UTF-8 validator model
+// @assume models: request stream, session queue, model map; Headers::with_frame (the QPACK decoder) replaced by a model returning the intended map (kani::stub) - the decoder is outside this harness
 handle_bi_request!(d_handle_bi_request_connect, 0);
 
-// @h props=C12,C18 tier=quick t=3000 mem=20 sub=handle-bi-request
+// @h props=C12,C18 tier=quick t=3000 mem=20 sub=handle-bi-request covers=any
 // @fn wtransport/src/driver/mod.rs Worker::handle_bi_h3_stream (sliced)
 // @bound an ordinary GET request; any queue state
 // @oracle refused on its own stream with H3_REQUEST_REJECTED (0x10b); connection kept; never reaches the application
 // @assume as d_handle_bi_request_connect
 handle_bi_request!(d_handle_bi_request_get, 1);
 
-// @h props=C12,C18 tier=quick t=3000 mem=20 sub=handle-bi-request
+// @h props=C12,C18 tier=quick t=3000 mem=20 sub=handle-bi-request covers=any
 // @fn wtransport/src/driver/mod.rs Worker::handle_bi_h3_stream (sliced)
 // @bound CONNECT with :protocol = websocket; any queue state
 // @oracle refused on its own stream with H3_MESSAGE_ERROR (0x10e); connection kept
 // @assume as d_handle_bi_request_connect
 handle_bi_request!(d_handle_bi_request_other_protocol, 2);
 
-// @h props=C12,C18 tier=quick t=3000 mem=20 sub=handle-bi-request
+// @h props=C12,C18 tier=quick t=3000 mem=20 sub=handle-bi-request covers=any
 // @fn wtransport/src/driver/mod.rs Worker::handle_bi_h3_stream (sliced)
 // @bound extended CONNECT without :path; any queue state
 // @oracle refused on its own stream with H3_MESSAGE_ERROR (0x10e); connection kept
 // @assume as d_handle_bi_request_connect
 handle_bi_request!(d_handle_bi_request_no_path, 3);
 
-// @h props=C12,C11 tier=quick t=2400 mem=20 sub=handle-bi-bad-field-section
-// @fn wtransport/src/driver/mod.rs Worker::handle_bi_h3_stream (sliced); wtransport-proto/src/headers.rs Headers::with_frame
-// @bound HEADERS frame whose field section is 00 00 followed by one dynamic-table reference line (2 symbolic bytes)
-// @oracle connection error QPACK_DECOMPRESSION_FAILED (0x200); nothing queued
+// @h props=C12,C18 tier=quick t=3000 mem=20 sub=handle-bi-request covers=any
+// @fn wtransport/src/driver/mod.rs Worker::handle_bi_h3_stream (sliced)
+// @bound extended CONNECT with :scheme = http; any queue state
+// @oracle refused on its own stream with H3_MESSAGE_ERROR (0x10e); connection kept
 // @assume as d_handle_bi_request_connect
-#[kani::proof]
-#[kani::unwind(8)]
-#[kani::stub(core::str::validations::run_utf8_validation, crate::vh::utf8_validation_stub)]
-fn d_handle_bi_bad_field_section() {
-    let b0: u8 = kani::any();
-    let b1: u8 = kani::any();
-    kani::assume(b0 & 0xC0 == 0x80 || b0 & 0xF0 == 0x10);
-    let f: Frame<'static> = Frame::new_headers(Cow::Owned([0x00, 0x00, b0, b1].to_vec()));
-    let mut w = worker(0);
-    let (s, stop) = bi();
-    let r = w.handle_bi_h3_stream(s, f);
-    match &r {
-        Err(DriverError::Proto(e)) => {
-            assert!(e.to_code().into_inner() == 0x200);
-            kani::cover!(true, "decompression failed");
-        }
-        _ => assert!(false, "undecodable field section not reported as QPACK_DECOMPRESSION_FAILED"),
-    }
-    assert!(stop.get().is_none() && w.ready_sessions.accepted.get() == 0);
-    core::mem::forget(r);
-    core::mem::forget(w);
-}
+handle_bi_request!(d_handle_bi_request_http_scheme, 4);
+
+// @h props=C12,C11 tier=quick t=3000 mem=20 sub=handle-bi-request covers=any
+// @fn wtransport/src/driver/mod.rs Worker::handle_bi_h3_stream (sliced)
+// @bound HEADERS frame whose field section the decoder rejects; any queue state
+// @oracle connection error QPACK_DECOMPRESSION_FAILED (0x200); nothing queued, stream not stopped
+// @assume as d_handle_bi_request_connect
+handle_bi_request!(d_handle_bi_request_undecodable, 5);
